@@ -28,7 +28,9 @@ func envStr(k, d string) string {
 type genFunc func(seed int64, idx int, tier string) *Plan
 
 var generators = map[string]genFunc{
-	"deploy": GenDeploy,
+	"deploy":  GenDeploy,
+	"pause":   GenPause,
+	"rollout": GenRollout,
 }
 
 type runSummary struct {
@@ -116,12 +118,57 @@ func TestRun(t *testing.T) {
 		sum.Scenarios++
 		if savePlans {
 			q := *p
-			if q.Sched != "replay" {
+			if q.Sched != "replay" && q.Sched != "guided" {
 				q.Decisions = decisions
 			}
 			b, _ := json.Marshal(&q)
 			os.WriteFile(filepath.Join(out, "plans", fmt.Sprintf("%d.json", scn)), b, 0o644)
 		}
+	}
+	rec.Flush()
+	sum.Events = rec.Counts
+	sum.WallS = time.Since(start).Seconds()
+	b, _ := json.MarshalIndent(&sum, "", " ")
+	os.WriteFile(filepath.Join(out, "summary.json"), b, 0o644)
+	os.RemoveAll(scratch)
+}
+
+
+// TestRouting runs the sequential plans (JSON RoutingPlan files in VERIF_PLANS).
+func TestRouting(t *testing.T) {
+	out := os.Getenv("VERIF_OUT")
+	if out == "" {
+		t.Skip("VERIF_OUT not set")
+	}
+	first := envInt("VERIF_FIRST", 0)
+	scratch := filepath.Join(out, "scratch")
+	os.MkdirAll(scratch, 0o755)
+	f, err := os.Create(filepath.Join(out, "trace.ndjson"))
+	if err != nil {
+		t.Fatal(err)
+	}
+	defer f.Close()
+	rec := NewRecorder(f)
+	start := time.Now()
+	files, _ := filepath.Glob(filepath.Join(os.Getenv("VERIF_PLANS"), "*.json"))
+	sort.Strings(files)
+	sum := runSummary{Family: "routing"}
+	cert, key, err := writeTestCert(scratch)
+	if err != nil {
+		t.Fatal(err)
+	}
+	for i, fn := range files {
+		b, err := os.ReadFile(fn)
+		if err != nil {
+			t.Fatal(err)
+		}
+		var p RoutingPlan
+		if err := json.Unmarshal(b, &p); err != nil {
+			t.Fatalf("%s: %v", fn, err)
+		}
+		os.WriteFile(filepath.Join(out, "current"), []byte(filepath.Base(fn)), 0o644)
+		RunRoutingPlan(t, first+i, &p, rec, scratch, cert, key)
+		sum.Scenarios++
 	}
 	rec.Flush()
 	sum.Events = rec.Counts
